@@ -319,6 +319,25 @@ func c01Run(w *core.W) {
 			return
 		}
 	}
+	// F8: expression contexts composed pairwise. outer(inner(operand)) for every pair of the 22 expression contexts and
+	// six operands that keep the temp register busy in different ways (none, depth 1, depth 2 left- and right-nested, a
+	// call that uses it, an array sum): a sub-expression compiled "self-contained" inside an index, a slice bound, an
+	// array element or a call argument still sits to the right of whatever the enclosing operator holds in the register.
+	w.Family("F8-composed-expression-contexts")
+	{
+		inner := []T{I(1), Bin("+", I(1), I(0)), Bin("-", Bin("*", I(1), N("gi")), I(1)), Bin("-", I(3), Bin("*", I(1), N("gi"))), Call("ar", I(1)), Bin("+", L(I(1)), L(I(2)))} // ints are 1: a valid index and slice bound everywhere
+		ecs := exprContexts()
+		for _, outer := range ecs {
+			for _, in := range ecs {
+				for _, op := range inner {
+					e := outer.F(in.F(op))
+					if !emit([]T{e}) || !emit(wrapFunc(e)) {
+						return
+					}
+				}
+			}
+		}
+	}
 	// F2: statement-position product
 	w.Family("F2-statement-position")
 	lv := 1
